@@ -446,6 +446,16 @@ pub(crate) const fn is_unicast_global_ipv6(ip: &Ipv6Addr) -> bool {
 #[must_use]
 #[inline]
 pub(crate) const fn is_global_ipv6(ip: &Ipv6Addr) -> bool {
+    // an IPv4-mapped address (`::ffff:a.b.c.d`) reaches the embedded IPv4 address
+    if let Some(ipv4) = ip.to_ipv4_mapped() {
+        return is_global_ipv4(&ipv4);
+    }
+
+    // the scope field exists in multicast addresses only
+    if !ip.is_multicast() {
+        return is_unicast_global_ipv6(ip);
+    }
+
     match ip.segments()[0] & 0x000f {
         1 // Interface-local scope (same node)
         | 2 // Link-local scope (same link)
